@@ -7,7 +7,7 @@
 (*  - Unfold: the Context tree a manager tree must extract to.              *)
 (*                                                                         *)
 (* Manager trees are GIVEN (JSON, enumerated by the harness).  A node:      *)
-(*   [id, k, async, yf, exiting, body, ops]                                 *)
+(*   [id, k, async, yf, bp, exiting, body, ops]                             *)
 (*   k = "plain"  a manager with plain __enter__/__exit__ methods            *)
 (*   k = "gcm"    made by @contextmanager / @asynccontextmanager; its        *)
 (*                generator holds the managers in `body` (nested withs) and  *)
@@ -75,7 +75,11 @@ Unfold(n, exiting) ==
           hasinner |-> ~exiting,
           frames |-> IF exiting THEN <<>>
                      ELSE IF n.yf THEN << [fn |-> "outer", ctxs |-> <<>>], [fn |-> "helper", ctxs |-> UnfoldBody(n.body)] >>
-                     ELSE << [fn |-> "outer", ctxs |-> UnfoldBody(n.body)] >>,
+                     \* a manager made by the async_generator BACKPORT's asynccontextmanager over an @async_generator
+                     \* function (n.bp): its generator is suspended in `await yield_(...)`, a library coroutine whose frame
+                     \* the glue reports hidden (and prunes what is inward of it)
+                     ELSE << [fn |-> "outer", ctxs |-> UnfoldBody(n.body)] >>
+                          \o (IF n.bp THEN << [fn |-> "lib:yield_", ctxs |-> <<>>] >> ELSE <<>>),
           children |-> <<>>, method |-> "", idx |-> 0]
     [] n.k = "stack" ->
          [id |-> n.id, k |-> "stack", async |-> n.async, exiting |-> exiting, frames |-> <<>>, hasinner |-> FALSE,
